@@ -844,3 +844,16 @@ Qed.
 
 Theorem qload_terminates ans models : qload ans models <> OutOfFuel.
 Proof. unfold qload. apply qloop_fuel. lia. Qed.
+
+Lemma table_is_monotone_instance : monotone dep_ready /\ dep_ans = mono_ans dep_ready /\
+  forall all i, reach all i <-> mreach all dep_ready i.
+Proof. split; [exact dep_ready_mono | split; [reflexivity | exact reach_mreach]]. Qed.
+
+(* a monotone readiness predicate that is not a dependency table: "waits for ANY ONE of" *)
+Definition any_ready (x : xref) (S : nat -> bool) : bool :=
+  match xdeps x with [] => true | ds => existsb S ds end.
+Lemma any_ready_monotone : monotone any_ready.
+Proof.
+  intros x S S' Hsub H. unfold any_ready in *. destruct (xdeps x) as [|d ds]; [reflexivity|].
+  apply existsb_exists in H as [e [H1 H2]]. apply existsb_exists. exists e. split; [exact H1 | apply Hsub; exact H2].
+Qed.
